@@ -3,8 +3,11 @@
 and write notes/seeded_results.json + notes/seeded_results.md."""
 import json, os, subprocess, sys
 HERE = os.path.dirname(os.path.dirname(os.path.abspath(__file__)))
-rows = []
 only = sys.argv[1:]
+rows = []
+rpath = os.path.join(HERE, "notes", "seeded_results.json")
+if only and os.path.exists(rpath):          # partial run: keep the other rows
+    rows = [r for r in json.load(open(rpath)) if r["name"] not in only]
 for name in sorted(os.listdir(os.path.join(HERE, "seeded"))):
     d = os.path.join(HERE, "seeded", name)
     if not os.path.exists(os.path.join(d, "patch.diff")) or (only and name not in only):
@@ -20,6 +23,7 @@ for name in sorted(os.listdir(os.path.join(HERE, "seeded"))):
                      verdict=("VIOLATION (no-failing-input-found)" if nfi else "VIOLATION with failing input")
                      if caught else "MISSED", raw=out))
     print(name, rows[-1]["verdict"], flush=True)
+rows.sort(key=lambda r: r["name"])
 json.dump(rows, open(os.path.join(HERE, "notes", "seeded_results.json"), "w"), indent=1)
 with open(os.path.join(HERE, "notes", "seeded_results.md"), "w") as f:
     f.write("| seeded change | property | check(s) run | verdict | what it breaks |\n|---|---|---|---|---|\n")
